@@ -175,6 +175,66 @@ def histVals {V : Type} : List (Op (CKey V)) → List V
   | .failingQuery q :: r => q.1 :: histVals r
   | _ :: r => histVals r
 
+/-! ## 3b. Context-relative hints: `is_check_expr_cacheable`
+
+  beartype/_check/cls/hint/tree/hinttreecode.py  HintTreeCode.is_check_expr_cacheable, sanify_hint_child
+  beartype/_check/code/codemain.py               make_check_expr  (`_HINT_CONF_TO_CHECK_EXPR[(hint_sane, conf)]`
+                                                 is written only `if hint_tree.is_check_expr_cacheable`)
+  beartype/_check/checkmake.py                   make_func_checker (the `(hint, conf, exception_prefix)` tables are
+                                                 written only if `func_scope_frozen.is_check_expr_cacheable`)
+  beartype/_check/convert/_reduce/_pep/redpep673.py, …/pep484/redpep484ref.py
+                                                 `typing.Self` and stringified forward references are sanified with
+                                                 `is_check_expr_cacheable=False`: what they mean depends on the class
+                                                 being decorated / on the scope of the caller (the CONTEXT of a query)
+
+  The key of both tables is the unreduced hint (and the configuration): it compares equal in every context. -/
+
+/-- `HintTreeCode.is_check_expr_cacheable` at the end of the visit of a hint tree: `True` at the root, then
+    `&=` with the flag of every hint sanified, in visiting order. `visit` lists, per sanified hint of the tree in
+    that order (root first), whether it is context-relative. -/
+def treeCacheable (visit : List Bool) : Bool := visit.foldl (fun acc rel => acc && !rel) true
+
+/-- the accumulation `&=` replaced by a plain assignment `=`: the flag of the hint sanified LAST wins -/
+def treeCacheableLast (visit : List Bool) : Bool := visit.foldl (fun _ rel => !rel) true
+
+/-- does the tree mention a context-relative hint anywhere? -/
+def mentionsRel (visit : List Bool) : Bool := visit.any id
+
+/-- operations of a history whose queries are asked from contexts (numbered classes / caller scopes) -/
+inductive COp (V : Type) where
+  | ask (ctx : Nat) (q : CKey V)
+  | clearCaches
+
+/-- `make_func_checker` / `make_check_expr` asked from context `c`: the table is looked up with the context-free
+    key; on a miss the hint is sanified (`coerce`), the checker is built from the coerced hint IN CONTEXT `c`
+    (`f c`), and it is stored under the context-free key only if the flag `acc (visit hint)` computed during the
+    visit says so. -/
+def askBearC {V A : Type} (L : Lang V) (visit : V → List Bool) (acc : List Bool → Bool) (checked : Bool)
+    (f : Nat → CKey V → A) (s : BearState V A) (c : Nat) (q : CKey V) : A × BearState V A :=
+  if L.hashable q.1 then
+    match find (ckeyEq L) s.checker q with
+    | some a => (a, s)
+    | none =>
+      let r := coerce L checked s.reprT q.1
+      (f c (r.1, q.2),
+       { checker := if acc (visit r.1) then (q, f c (r.1, q.2)) :: s.checker else s.checker, reprT := r.2 })
+  else
+    let r := coerce L checked s.reprT q.1
+    (f c (r.1, q.2), { s with reprT := r.2 })
+
+def stepC {V A : Type} (L : Lang V) (visit : V → List Bool) (acc : List Bool → Bool) (checked : Bool)
+    (f : Nat → CKey V → A) (s : BearState V A) : COp V → BearState V A
+  | .ask c q => (askBearC L visit acc checked f s c q).2
+  | .clearCaches => BearState.empty
+
+def runC {V A : Type} (L : Lang V) (visit : V → List Bool) (acc : List Bool → Bool) (checked : Bool)
+    (f : Nat → CKey V → A) (hist : List (COp V)) : BearState V A :=
+  hist.foldl (stepC L visit acc checked f) BearState.empty
+
+def answerC {V A : Type} (L : Lang V) (visit : V → List Bool) (acc : List Bool → Bool) (checked : Bool)
+    (f : Nat → CKey V → A) (s : BearState V A) (c : Nat) (q : CKey V) : A :=
+  (askBearC L visit acc checked f s c q).1
+
 /-! ## 4. `method_cached_arg_by_id`: keyed by the addresses of objects that may die -/
 
 /-- live objects: address ↦ value. `id(o)` is the address: unique among LIVE objects only. -/
@@ -314,6 +374,7 @@ structure Val where
   rep : String       -- its `repr`
   hashable : Bool
   worthy : Bool
+  visit : List Bool := []   -- per hint of its tree in visiting order (root first): is it context-relative?
 deriving DecidableEq, Repr
 
 def valLang : Lang Val where
